@@ -45,6 +45,10 @@ type Facts struct {
 	HTTPTypes             [][2]string // media type -> parser
 	HTTPDefault           string
 	HTTPCutSep            string
+	HTTPUniform           bool
+	HTTPAst               string // the go/ast reading of the same tables (kept for the replay file)
+	PoolAst               string
+	PoolNotes             []string
 	CloneCopiesTests      bool
 	CloneCopiesPosts      bool
 	KeyBufGuarded         bool
@@ -660,6 +664,11 @@ func extractFacts(repo string) (*Facts, error) {
 		})
 	}
 
+	// final value of the http tables: the behavioural reading (httpprobe.go); the go/ast reading is kept as a comment
+	fc.HTTPAst = fmt.Sprintf("methods=%v types=%v default=%s sep=%q", fc.HTTPMethods, fc.HTTPTypes, fc.HTTPDefault, fc.HTTPCutSep)
+	hp := probeHTTP(stringLiterals([]*ast.File{zf}))
+	fc.HTTPMethods, fc.HTTPTypes, fc.HTTPDefault, fc.HTTPCutSep, fc.HTTPUniform = hp.Methods, hp.Types, hp.Default, hp.CutSep, hp.Uniform
+
 	// F-clone: does cloneShallow give the new object its own tests / postTransforms backing arrays?
 	hf, err := parseFile(fset, filepath.Join(repo, "struct_helpers.go"))
 	if err != nil {
@@ -692,6 +701,33 @@ func extractFacts(repo string) (*Facts, error) {
 			}
 			return true
 		})
+	}
+	// pooled constructors, type fields, CollectMap: behavioural reading (poolprobe.go); go/ast reading kept as a comment
+	{
+		keys := make([]string, 0, len(fc.Ctor))
+		for k := range fc.Ctor {
+			keys = append(keys, k)
+		}
+		sort.Strings(keys)
+		var sb strings.Builder
+		for _, k := range keys {
+			fmt.Fprintf(&sb, "%s=%v ", k, fc.Ctor[k])
+		}
+		fmt.Fprintf(&sb, "collectMapSkipsFirst=%v", fc.CollectMapSkipsFirst)
+		fc.PoolAst = sb.String()
+		pp := probePools()
+		for k, v := range pp.Ctor {
+			sort.Strings(v)
+			if v == nil {
+				v = []string{}
+			}
+			fc.Ctor[k] = v
+		}
+		for k, v := range pp.TypeFields {
+			fc.TypeFields[k] = v
+		}
+		fc.CollectMapSkipsFirst = pp.CollectSkipFirst
+		fc.PoolNotes = pp.Notes
 	}
 	// final value of each behavioural fact: the probe. The go/ast reading is kept for the replay file.
 	pr := runProbes()
@@ -758,6 +794,10 @@ func (f *Facts) lean() string {
 		b(f.Loop["sliceParse"]["resetCatch"]), b(f.Loop["sliceParse"]["resetExit"]),
 		b(f.Loop["sliceVal"]["resetCatch"]), b(f.Loop["sliceVal"]["resetExit"]),
 		b(f.PrimParsePostClearsCatch), b(f.PrimValPostClearsCatch))
+	fmt.Fprintf(&s, "-- go/ast shape reading of the pooled constructors: %s\n", f.PoolAst)
+	for _, n := range f.PoolNotes {
+		fmt.Fprintf(&s, "-- probe note: %s\n", n)
+	}
 	names := make([]string, 0, len(f.Ctor))
 	for k := range f.Ctor {
 		names = append(names, k)
@@ -811,10 +851,11 @@ func (f *Facts) lean() string {
 	fmt.Fprintf(&s, "/-- guards that keep input data from panicking the glue code -/\ndef dynFacts : Dyn.Facts := { keyBufGuard := %s, nilProvGuard := %s, unexportedGuard := %s, emptySegGuard := %s, mapConvert := %s }\n\n",
 		b(f.DynKeyBufGuard), b(f.DynNilProvGuard), b(f.DynUnexportedGuard), b(f.DynEmptySegGuard), b(f.DynMapConvert))
 	fmt.Fprintf(&s, "/-- Issues.CollectMap skips the `$first` entry, so every issue object is returned to the pool once -/\ndef collectMapSkipsFirst : Bool := %s\n\n", b(f.CollectMapSkipsFirst))
-	s.WriteString("/-- zhttp.Request: `switch r.Method` and `switch typ` (typ = text of Content-Type before the separator) -/\n")
+	s.WriteString("/-- zhttp.Request's dispatch, read off a grid of (method, Content-Type) requests sent through the real function with marker parsers -/\n")
+	fmt.Fprintf(&s, "-- go/ast shape reading: %s\n", f.HTTPAst)
 	tbl("httpMethods", f.HTTPMethods)
 	tbl("httpTypes", f.HTTPTypes)
-	fmt.Fprintf(&s, "def httpDefault : Http.Source := %s\ndef httpCutSep : List Char := %s\n\n", srcOf(f.HTTPDefault), leanChars(f.HTTPCutSep))
+	fmt.Fprintf(&s, "def httpDefault : Http.Source := %s\ndef httpCutSep : List Char := %s\n/-- every probed method without an entry dispatches on the media type alike -/\ndef httpUniform : Bool := %s\n\n", srcOf(f.HTTPDefault), leanChars(f.HTTPCutSep), b(f.HTTPUniform))
 	fmt.Fprintf(&s, "/-- cloneShallow (Pick/Omit/Extend) gives the derived schema its own tests and postTransforms arrays -/\ndef cloneCopies : Bool := %s\n\n", b(f.CloneCopiesTests && f.CloneCopiesPosts))
 	fmt.Fprintf(&s, "def structValidateTestArg : String := %q\n", f.StructValidateTestArg)
 	fmt.Fprintf(&s, "def structValidatePostArg : String := %q\n", f.StructValidatePostArg)
@@ -856,6 +897,30 @@ func (f *Facts) json() []byte {
 		if !rv.Field(i).Bool() {
 			fails = append(fails, failed{name, probeDoc[name][0], probeDoc[name][1]})
 		}
+	}
+	// pooled constructors: a field that still holds the previous user's value after the constructor ran
+	dead := map[string]bool{"Test": true, "HasCaught": true} // written before read on every path (see Props/C07)
+	for _, ct := range [][2]string{{"NewExecCtx", "ExecCtx"}, {"NewZogIssue", "ZogIssue"}, {"IssueFromTest", "ZogIssue"}, {"IssueFromCoerce", "ZogIssue"},
+		{"NewErrsList", "ErrsList"}, {"NewErrsMap", "ErrsMap"}, {"NewSchemaCtx", "SchemaCtx"}, {"NewValidateSchemaCtx", "SchemaCtx"}} {
+		have := map[string]bool{}
+		for _, a := range f.Ctor[ct[0]] {
+			have[a] = true
+		}
+		for _, fld := range f.TypeFields[ct[1]] {
+			if !have[fld] && !dead[fld] {
+				fails = append(fails, failed{"Ctor:" + ct[0], "C07 C08", fmt.Sprintf("a %s whose field %s (like every other field) was set to a sentinel by its previous user is returned to the pool with the library's own Free and handed out again by %s: %s still holds the sentinel", ct[1], fld, ct[0], fld)})
+			}
+		}
+	}
+	if len(f.Ctor["NewPathBuilder"]) == 0 {
+		fails = append(fails, failed{"Ctor:NewPathBuilder", "C07 C08 C10", "a PathBuilder freed while holding the segments [x, [3]] is handed out again by NewPathBuilder: it does not render the empty path (or Push(k) does not render k)"})
+	}
+	if !f.CollectMapSkipsFirst {
+		fails = append(fails, failed{"CollectMap", "C07 C08", "Struct{a: String().Required(), b: String().Required()}.Parse(map{}) then z.Issues.CollectMap(result): the first issue (filed under its path and under $first) is put into the pool twice, so two later acquisitions receive the same object"})
+	}
+	doc := "methods=[[GET Query] [HEAD Query]] types=[[application/json JSON] [application/x-www-form-urlencoded Form]] default=Query sep=\";\" uniform=true"
+	if got := fmt.Sprintf("methods=%v types=%v default=%s sep=%q uniform=%v", f.HTTPMethods, f.HTTPTypes, f.HTTPDefault, f.HTTPCutSep, f.HTTPUniform); got != doc {
+		fails = append(fails, failed{"HTTPDispatch", "C15", "zhttp.Request with marker parsers over a grid of (method, Content-Type) requests: observed " + got + "; documented " + doc})
 	}
 	out, _ := json.MarshalIndent(map[string]any{"facts": f, "failed_probes": fails}, "", " ")
 	return out
